@@ -182,6 +182,7 @@ class TypedGen:
         self.values = {}         # context variable values
         self.counter = 0
         self.with_host = with_host
+        self.map_ranges = True   # may macros range over maps (iteration order unspecified)?
 
     # -- context ----------------------------------------------------------------------------
     def make_context(self, nvars=5):
@@ -420,7 +421,7 @@ class TypedGen:
 
     def macro(self, kind, result_elem_t, d):
         rng = self.rng
-        if rng.random() < 0.75:
+        if rng.random() < 0.75 or not self.map_ranges:
             et = self.any_scalar() if rng.random() < 0.8 else ('list', 'int')
             recv = self.gen(('list', et), d)
         else:
